@@ -77,6 +77,15 @@ def noisy_realise(t, nint, lab, noise, nseed):
 def pipeline(t, nint, lab, p):
     import forsys as fs
     R = noisy_realise(t, nint, lab, p["noise"], p["nseed"])
+    if p["noise"] > 0:
+        # the noise must leave every cell a polygon of its stored orientation (a tiny cell can be turned inside out)
+        for cid, cell in R.cells.items():
+            a = 0.0
+            vs = cell.vertices
+            for k in range(len(vs)):
+                a += vs[k].x * vs[(k + 1) % len(vs)].y - vs[(k + 1) % len(vs)].x * vs[k].y
+            if (a < 0) != bool(R.flipped[cid]):        # counter-clockwise storage has positive shoelace sum
+                raise gen.Degenerate("vertex noise inverted a cell")
     frame = make_frame(R)
     fsys = call(fs.ForSys, {0: frame})
     call(fsys.build_force_matrix, when=0, circle_fit_method=p["fit"], angle_limit=np.inf)
